@@ -217,33 +217,37 @@ func c20Forms() []formCase {
 	}
 	// ---- injector forms
 	injForms := map[string]string{
-		"documented-return":   "func Init() A {\n\twire.Build(NewA)\n\treturn A{}\n}\n",
-		"documented-panic":    "func Init() A {\n\tpanic(wire.Build(NewA))\n}\n",
-		"method-injector":     "type Recv struct{}\n\nfunc (Recv) Init() A {\n\twire.Build(NewA)\n\treturn A{}\n}\n",
-		"generic-injector":    "func Init[T any]() A {\n\twire.Build(NewA)\n\treturn A{}\n}\n",
-		"named-results":       "func Init() (a A, err error) {\n\twire.Build(NewErrA)\n\treturn\n}\n",
-		"extra-statement":     "func Init() A {\n\tx := 1\n\t_ = x\n\twire.Build(NewA)\n\treturn A{}\n}\n",
-		"two-builds":          "func Init() A {\n\twire.Build(NewA)\n\twire.Build(NewA)\n\treturn A{}\n}\n",
-		"build-no-args":       "func Init(a A) A {\n\twire.Build()\n\treturn a\n}\n",
-		"build-no-args-2":     "func Init() A {\n\twire.Build()\n\treturn A{}\n}\n",
-		"variadic-injector":   "func Init(as ...A) []A {\n\twire.Build()\n\treturn nil\n}\n",
-		"blank-name":          "func _() A {\n\twire.Build(NewA)\n\treturn A{}\n}\n",
-		"no-result":           "func Init() {\n\twire.Build(NewA)\n}\n",
-		"four-results":        "func Init() (A, func(), error, int) {\n\tpanic(wire.Build(NewA))\n}\n",
-		"result-only-error":   "func Init() error {\n\tpanic(wire.Build(NewA))\n}\n",
-		"build-in-assign":     "func Init() A {\n\t_ = wire.Build(NewA)\n\treturn A{}\n}\n",
-		"build-in-if":         "func Init() A {\n\tif true {\n\t\twire.Build(NewA)\n\t}\n\treturn A{}\n}\n",
-		"build-in-closure":    "func Init() A {\n\tfunc() { wire.Build(NewA) }()\n\treturn A{}\n}\n",
-		"panic-two-args":      "func Init() A {\n\tpanic(wire.Build(NewA))\n\treturn A{}\n}\n",
-		"empty-stmts":         "func Init() A {\n\t;\n\twire.Build(NewA);\n\t;\n\treturn A{}\n}\n",
-		"unsafe-result":       "func Init() (unsafe.Pointer, error) {\n\tpanic(wire.Build(NewUP))\n}\n\nfunc NewUP() (unsafe.Pointer, error) { return nil, nil }\n",
-		"param-blank":         "func Init(_ A, _ *A) B {\n\tpanic(wire.Build(NewB))\n}\n",
-		"param-unnamed":       "func Init(A, *A) B {\n\tpanic(wire.Build(NewB))\n}\n",
-		"result-func-type":    "func Init() func() {\n\tpanic(wire.Build(NewCF))\n}\n\nfunc NewCF() func() { return nil }\n",
-		"result-iface-empty":  "func Init() (interface{}, error) {\n\tpanic(wire.Build(NewAny))\n}\n\nfunc NewAny() (interface{}, error) { return nil, nil }\n",
-		"generic-decl-copied": "type Pair[K comparable, V any] struct {\n\tK K\n\tV V\n}\n\nfunc Init() A {\n\twire.Build(NewA)\n\treturn A{}\n}\n",
-		"generic-use-copied":  "var pairs = map[string]Pair2[int, string]{}\n\ntype Pair2[K comparable, V any] struct {\n\tK K\n\tV V\n}\n\nfunc Init() A {\n\twire.Build(NewA)\n\treturn A{}\n}\n",
-		"generic-func-copied": "func Map[T, U any](xs []T, f func(T) U) []U {\n\tvar r []U\n\tfor _, x := range xs {\n\t\tr = append(r, f(x))\n\t}\n\treturn r\n}\n\nfunc Init() A {\n\twire.Build(NewA)\n\treturn A{}\n}\n",
+		"documented-return":          "func Init() A {\n\twire.Build(NewA)\n\treturn A{}\n}\n",
+		"documented-panic":           "func Init() A {\n\tpanic(wire.Build(NewA))\n}\n",
+		"method-injector":            "type Recv struct{}\n\nfunc (Recv) Init() A {\n\twire.Build(NewA)\n\treturn A{}\n}\n",
+		"generic-injector":           "func Init[T any]() A {\n\twire.Build(NewA)\n\treturn A{}\n}\n",
+		"named-results":              "func Init() (a A, err error) {\n\twire.Build(NewErrA)\n\treturn\n}\n",
+		"extra-statement":            "func Init() A {\n\tx := 1\n\t_ = x\n\twire.Build(NewA)\n\treturn A{}\n}\n",
+		"two-builds":                 "func Init() A {\n\twire.Build(NewA)\n\twire.Build(NewA)\n\treturn A{}\n}\n",
+		"build-no-args":              "func Init(a A) A {\n\twire.Build()\n\treturn a\n}\n",
+		"build-no-args-2":            "func Init() A {\n\twire.Build()\n\treturn A{}\n}\n",
+		"variadic-injector":          "func Init(as ...A) []A {\n\twire.Build()\n\treturn nil\n}\n",
+		"blank-name":                 "func _() A {\n\twire.Build(NewA)\n\treturn A{}\n}\n",
+		"no-result":                  "func Init() {\n\twire.Build(NewA)\n}\n",
+		"four-results":               "func Init() (A, func(), error, int) {\n\tpanic(wire.Build(NewA))\n}\n",
+		"result-only-error":          "func Init() error {\n\tpanic(wire.Build(NewA))\n}\n",
+		"build-in-assign":            "func Init() A {\n\t_ = wire.Build(NewA)\n\treturn A{}\n}\n",
+		"build-in-if":                "func Init() A {\n\tif true {\n\t\twire.Build(NewA)\n\t}\n\treturn A{}\n}\n",
+		"build-in-closure":           "func Init() A {\n\tfunc() { wire.Build(NewA) }()\n\treturn A{}\n}\n",
+		"panic-two-args":             "func Init() A {\n\tpanic(wire.Build(NewA))\n\treturn A{}\n}\n",
+		"empty-stmts":                "func Init() A {\n\t;\n\twire.Build(NewA);\n\t;\n\treturn A{}\n}\n",
+		"panic-paren":                "func Init() A {\n\tpanic((wire.Build(NewA)))\n}\n",
+		"paren-stmt":                 "func Init() A {\n\t(wire.Build(NewA))\n\treturn A{}\n}\n",
+		"panic-paren-next-to-normal": "func Init() A {\n\twire.Build(NewA)\n\treturn A{}\n}\n\nfunc Init2() *A {\n\tpanic((wire.Build(NewPA)))\n}\n",
+		"paren-stmt-next-to-normal":  "func Init() A {\n\twire.Build(NewA)\n\treturn A{}\n}\n\nfunc Init2() *A {\n\t(wire.Build(NewPA))\n\treturn nil\n}\n",
+		"unsafe-result":              "func Init() (unsafe.Pointer, error) {\n\tpanic(wire.Build(NewUP))\n}\n\nfunc NewUP() (unsafe.Pointer, error) { return nil, nil }\n",
+		"param-blank":                "func Init(_ A, _ *A) B {\n\tpanic(wire.Build(NewB))\n}\n",
+		"param-unnamed":              "func Init(A, *A) B {\n\tpanic(wire.Build(NewB))\n}\n",
+		"result-func-type":           "func Init() func() {\n\tpanic(wire.Build(NewCF))\n}\n\nfunc NewCF() func() { return nil }\n",
+		"result-iface-empty":         "func Init() (interface{}, error) {\n\tpanic(wire.Build(NewAny))\n}\n\nfunc NewAny() (interface{}, error) { return nil, nil }\n",
+		"generic-decl-copied":        "type Pair[K comparable, V any] struct {\n\tK K\n\tV V\n}\n\nfunc Init() A {\n\twire.Build(NewA)\n\treturn A{}\n}\n",
+		"generic-use-copied":         "var pairs = map[string]Pair2[int, string]{}\n\ntype Pair2[K comparable, V any] struct {\n\tK K\n\tV V\n}\n\nfunc Init() A {\n\twire.Build(NewA)\n\treturn A{}\n}\n",
+		"generic-func-copied":        "func Map[T, U any](xs []T, f func(T) U) []U {\n\tvar r []U\n\tfor _, x := range xs {\n\t\tr = append(r, f(x))\n\t}\n\treturn r\n}\n\nfunc Init() A {\n\twire.Build(NewA)\n\treturn A{}\n}\n",
 	}
 	for _, k := range sortedStrKeys(injForms) {
 		imp := ""
